@@ -1036,12 +1036,13 @@ def _c14_execute(hb, sb, inputs):
     try:
         cwd = os.path.join(scratch, "cwd")
         os.makedirs(cwd)
-        bindrive.make_witness_dir(os.path.join(cwd, "P"), "P")
+        pdir = "P,v2"          # the directory named on the command line ("P" in the model) has a comma in its name
+        bindrive.make_witness_dir(os.path.join(cwd, pdir), "P")
         # the directory a configuration file names ("T" in the model) is concretely called `~T`: a relative name that starts
         # with a character shells treat specially is a name like any other for a path read from a file or an argument
         tdir = "~T"
         bindrive.make_witness_dir(os.path.join(cwd, tdir), "T")
-        for furnished in (cwd, os.path.join(cwd, "P"), os.path.join(cwd, tdir)):
+        for furnished in (cwd, os.path.join(cwd, pdir), os.path.join(cwd, tdir)):
             bindrive.furnish(furnished)
         reports = os.path.join(scratch, "reports")
         os.makedirs(reports)
@@ -1065,7 +1066,7 @@ def _c14_execute(hb, sb, inputs):
                 with open(os.path.join(cwd, "cfg.toml"), "w") as f:
                     f.write(bindrive.toml_text(inp["toml"][0], tdir if inp["toml"][0]["path"] == "T" else inp["toml"][0]["path"]))
             # every equivalent spelling of the two options (--path X, -p X, --path=X, -pX, either order)
-            args = bindrive.spell_args(inp["flag"], "cfg.toml" if inp["toml"] else "", inp)
+            args = bindrive.spell_args(pdir if inp["flag"] == "P" else inp["flag"], "cfg.toml" if inp["toml"] else "", inp)
             code, err = bindrive.run_solstat(sb, cwd, args)
             written = os.path.exists(rpath) and open(rpath, errors="replace").read() != sentinel
             if written:
@@ -1321,6 +1322,10 @@ def _c18_execute(chk, sb, hist):
         shutil.copy(os.path.join(ROOT, "corpus", "unicode_idents.sol"), os.path.join(inner, "Ünï.sol"))
         with open(os.path.join(inner, "Broken.t.sol"), "wb") as f:
             f.write(b"contract Broken { function (")
+        # rarely used but valid syntax: an annotated inline assembly block, a unicode string, a user-defined operator-free type
+        with open(os.path.join(proj, "Asm.sol"), "wb") as f:
+            f.write(b'pragma solidity 0.8.17;\ncontract Asm {\n    function f(uint256 x) external pure returns (uint256 r) {\n'
+                    b'        assembly ("memory-safe") { r := add(x, 1) }\n        assembly { r := mul(r, 2) }\n    }\n}\n')
         # build output next to the sources: directories that are called like a contract (Foundry's out/Counter.sol/,
         # Hardhat's artifacts/.../Token.sol/), dotted directory names
         art = os.path.join(proj, "out", "Counter.sol")
